@@ -57,6 +57,11 @@ pub struct C05Scn {
 pub enum Class {
     /// canonical spelling: the reference decides (payload: seconds)
     Canonical(i64),
+    /// digits with missing zero padding (`2024-6-1 9:00:00`): the shipped parser accepts them and
+    /// their meaning is unambiguous.  Judged like Canonical, but only for elements that the
+    /// implementation removes at some point of the history (an implementation that treats such a
+    /// value as unparseable and never removes the element is not reported).
+    Lenient(i64),
     /// an enumerated malformed class: must never make an element ready
     Invalid,
     /// outside both: judged only by monotonicity and environment-independence
@@ -73,6 +78,9 @@ pub fn classify_to(a: &Option<AttrVal>) -> Class {
     }
     if s.is_empty() || !s.bytes().any(|b| b.is_ascii_digit()) {
         return Class::Invalid; // empty / words
+    }
+    if let Some(w) = parse_to_unpadded(s) {
+        return Class::Lenient(w);
     }
     let b = s.as_bytes();
     let digits_at = |idx: &[usize]| idx.iter().all(|i| b.get(*i).map_or(false, |c| c.is_ascii_digit()));
@@ -108,6 +116,33 @@ pub fn classify_to(a: &Option<AttrVal>) -> Class {
         }
     }
     Class::Grey
+}
+
+/// `Y-M-D h:m:s` with 1..2 digit fields (4 digit year), single separators, all in range.
+fn parse_to_unpadded(s: &str) -> Option<i64> {
+    let (date, time) = s.split_once(' ')?;
+    let d: Vec<&str> = date.split('-').collect();
+    let t: Vec<&str> = time.split(':').collect();
+    if d.len() != 3 || t.len() != 3 || d[0].len() != 4 {
+        return None;
+    }
+    let mut padded = String::new();
+    padded.push_str(d[0]);
+    for (i, f) in d[1..].iter().chain(t.iter()).enumerate() {
+        if f.is_empty() || f.len() > 2 || !f.bytes().all(|b| b.is_ascii_digit()) {
+            return None;
+        }
+        padded.push(match i {
+            0 | 1 => '-',
+            2 => ' ',
+            _ => ':',
+        });
+        if f.len() == 1 {
+            padded.push('0');
+        }
+        padded.push_str(f);
+    }
+    parse_to_canonical(&padded)
 }
 
 pub fn classify_offset(s: &str) -> Class {
@@ -156,7 +191,6 @@ const TO_INVALID: &[&str] = &[
 ];
 
 const TO_GREY: &[&str] = &[
-    "2024-3-1 0:0:0",
     "2024-03-01  00:00:00",
     " 2024-03-01 00:00:00",
     "2024-03-01 00:00:00 ",
@@ -184,6 +218,11 @@ const BASES: &[&str] = &[
     "2100-03-01 00:00:00",
     "9998-12-31 23:59:59",
     "1971-01-01 00:00:00",
+    // inside daylight-saving transitions of zones in the TZ pool (as UTC wall clock)
+    "2024-11-03 09:30:00",
+    "2024-10-27 00:30:00",
+    "2024-03-10 10:30:00",
+    "2024-03-31 01:30:00",
 ];
 
 pub fn generate(seed: u64) -> C05Scn {
@@ -224,6 +263,13 @@ pub fn generate(seed: u64) -> C05Scn {
     if walls.is_empty() {
         walls.push(base);
         tos.push(Some(AttrVal::Val(reftime::format_wall(base))));
+    }
+    for w in walls.clone() {
+        let c = reftime::format_wall(w);
+        let unpadded = c.replace("-0", "-").replace(" 0", " ").replace(":0", ":");
+        if unpadded != c && rng.chance(1, 2) {
+            tos.push(Some(AttrVal::Val(unpadded)));
+        }
     }
     tos.push(Some(AttrVal::Val(rng.pick(TO_INVALID).to_string())));
     tos.push(Some(AttrVal::Val(rng.pick(TO_INVALID).to_string())));
@@ -421,6 +467,8 @@ pub fn run(scn: &C05Scn, stats: &mut RunStats) -> Option<Violation> {
     let mut hist: Vec<((i64, i64), (i64, i64), BTreeSet<u32>, Vec<u8>, String)> = Vec::new();
     let mut flipped = false;
     let mut perturbed = false;
+    let mut pending: Vec<(u32, Violation)> = Vec::new();
+    let mut ever_removed: BTreeSet<u32> = BTreeSet::new();
     for (k, r) in scn.runs.iter().enumerate() {
         let offset_str = offset_of(scn, r);
         let off_class = classify_offset(&offset_str);
@@ -507,7 +555,7 @@ pub fn run(scn: &C05Scn, stats: &mut RunStats) -> Option<Violation> {
             let observed = absent.contains(&e.id);
             let (must_absent, must_present, rel): (bool, bool, &str) = match (to_class, off_class) {
                 (Class::Invalid, _) | (_, Class::Invalid) => (false, true, "malformed"),
-                (Class::Canonical(w), Class::Canonical(o)) => {
+                (Class::Canonical(w) | Class::Lenient(w), Class::Canonical(o)) => {
                     let inst = w - o;
                     if inst == r.now.0 && r.now.1 == 0 {
                         stats.bump("probe_boundary_instant_hit_exactly");
@@ -526,6 +574,28 @@ pub fn run(scn: &C05Scn, stats: &mut RunStats) -> Option<Violation> {
                     (false, false, "grey")
                 }
             };
+            let lenient = matches!(to_class, Class::Lenient(_));
+            if lenient && observed {
+                ever_removed.insert(e.id);
+                stats.bump("probe_unpadded_to_value_removed");
+            }
+            if must_absent && !observed && lenient {
+                // reported only if the implementation removes this element at some other point of
+                // the history (i.e. evidently understands the value)
+                pending.push((
+                    e.id,
+                    Violation {
+                        invariant: "C05.ready_iff_now_ge_to".into(),
+                        signature: format!("kept-but-expired:unpadded-to:{}", rel).replace(' ', "_"),
+                        detail: format!(
+                            "run {} at now={:?}: element e{} (to={:?}, offset {:?}) is expired by the reference but was kept, although another run of the same history removes it\n  stdout {:?}",
+                            k, r.now, e.id, e.to, offset_str, stdout
+                        ),
+                        step: k,
+                    },
+                ));
+                continue;
+            }
             if must_absent && !observed {
                 return fail(
                     "C05.ready_iff_now_ge_to",
@@ -595,6 +665,11 @@ pub fn run(scn: &C05Scn, stats: &mut RunStats) -> Option<Violation> {
         }
         hist.push((first, last, absent, stdout_bytes.clone(), offset_str.clone()));
     }
+    for (id, v) in pending {
+        if ever_removed.contains(&id) {
+            return Some(v);
+        }
+    }
     if let (Some(a), Some(b)) = (scn.runs.first(), scn.runs.last()) {
         stats.sim_seconds = b.now.0 - a.now.0;
     }
@@ -605,6 +680,7 @@ pub fn run(scn: &C05Scn, stats: &mut RunStats) -> Option<Violation> {
 fn class_name(c: Class) -> &'static str {
     match c {
         Class::Canonical(_) => "canonical",
+        Class::Lenient(_) => "unpadded",
         Class::Invalid => "malformed",
         Class::Grey => "grey",
     }
@@ -687,6 +763,8 @@ pub fn check_tables() {
     for s in TO_GREY {
         assert_eq!(classify_to(&Some(AttrVal::Val(s.to_string()))), Class::Grey, "TO_GREY {:?}", s);
     }
+    assert_eq!(classify_to(&Some(AttrVal::Val("2024-3-1 0:0:0".into()))), Class::Lenient(parse_to_canonical("2024-03-01 00:00:00").unwrap()));
+    assert_eq!(classify_to(&Some(AttrVal::Val("2024-13-1 0:0:0".into()))), Class::Grey);
     for s in OFF_INVALID {
         assert_eq!(classify_offset(s), Class::Invalid, "OFF_INVALID {:?}", s);
     }
